@@ -1,3 +1,474 @@
-/- Property theorems for C20 (stub: not built yet). -/
+/-
+C20  Malformed data, horizons and settings are rejected, never silently mis-handled.
+Theorems about SkVerif/Model/Validate.lean: each validator rejects exactly its malformed classes,
+every applicable fault makes each entry point reject before any fitted state exists, and valid
+contexts are accepted.  Universally quantified over all the other arguments (the "randomised
+otherwise-valid context" of the property is ANY context here).
+-/
+import SkVerif.Model.Validate
+import SkVerif.Lemmas.Split
+import SkVerif.Lemmas.FH
 namespace SkVerif.C20
+open SkVerif SkVerif.Val
+
+/-- the malformed classes of a target series -/
+def YMalformed (k : YKind) (allowEmpty : Bool) : Prop :=
+  k = .unsorted ∨ k = .frame1 ∨ k = .frame2 ∨ k = .array ∨ k = .array2d ∨ k = .list ∨ k = .none ∨
+  k = .floatidx ∨ (k = .empty ∧ allowEmpty = false)
+
+instance (k : YKind) (a : Bool) : Decidable (YMalformed k a) := by unfold YMalformed; infer_instance
+
+def XMalformed (x : XKind) : Prop := x = .shifted ∨ x = .shorter ∨ x = .unsorted ∨ x = .array
+instance (x : XKind) : Decidable (XMalformed x) := by unfold XMalformed; infer_instance
+
+/-- `check_y` rejects exactly: unsorted or (unless allowed) empty index, multivariate or array-typed
+or otherwise mistyped target, unsupported index type -/
+theorem checkY_rejects_iff (k : YKind) (allowEmpty : Bool) :
+    checkY k allowEmpty = rej ↔ YMalformed k allowEmpty := by
+  cases k <;> cases allowEmpty <;> decide
+
+/-- exogenous data are rejected exactly when array-typed or when their index differs from the
+target's (shifted, shorter, differently ordered) -/
+theorem checkX_rejects_iff (x : XKind) : checkXAgainst x = rej ↔ XMalformed x := by
+  cases x <;> decide
+
+theorem checkEqualIndex_rejects_iff (k : YKind) (x : XKind) (allowEmpty : Bool) :
+    checkYX k x allowEmpty = rej ↔ YMalformed k allowEmpty ∨ XMalformed x := by
+  cases k <;> cases x <;> cases allowEmpty <;> decide
+
+/-- window / step / seasonal-period settings: `None` passes through, anything else must be a
+non-bool integer ≥ 1 -/
+theorem checkInt_rejects_iff (x : IntLike) :
+    checkPosInt x = rej ↔ x ≠ .none ∧ (∀ v, isInt x = some v → v < 1) := by
+  cases x with
+  | int v =>
+    simp only [checkPosInt, isInt, ne_eq, reduceCtorEq, not_false_eq_true, Option.some.injEq, forall_eq',
+      true_and]
+    by_cases h : v < 1 <;> simp [h, rej, pure, Except.pure]
+  | float => simp [checkPosInt, isInt, rej]
+  | str => simp [checkPosInt, isInt, rej]
+  | bool => simp [checkPosInt, isInt, rej]
+  | none => simp [checkPosInt, isInt, rej, pure, Except.pure]
+
+/-- horizons: duplicates, empty, fractional and wrongly typed values are rejected; a list of integer
+steps is rejected exactly when it has a duplicate or is empty -/
+theorem checkFh_rejects_iff (vs : List Int) (enf : Bool) :
+    (checkFh (.rel vs) enf = rej ↔ ¬ vs.Nodup ∨ vs = []) ∧
+    checkFh .dup enf = rej ∧ checkFh .empty enf = rej ∧ checkFh .frac enf = rej ∧
+    checkFh .str enf = rej ∧ checkFh .float enf = rej ∧ checkFh .none enf = rej := by
+  refine ⟨?_, by cases enf <;> decide, by cases enf <;> decide, by cases enf <;> decide,
+    by cases enf <;> decide, by cases enf <;> decide, by cases enf <;> decide⟩
+  simp only [checkFh, fhRaw, FH.mk, Bool.not_true, Bool.false_eq_true, ↓reduceIte, FH.checkValues]
+  by_cases hnd : vs.Nodup
+  · simp only [hnd, ↓reduceIte, Except.map, FH.checkFh, bind, Except.bind, not_true_eq_false, false_or]
+    have hlen : (sortInts vs).length = vs.length := (Lem.sortInts_perm vs).length_eq
+    by_cases hne : vs = []
+    · subst hne; simp [sortInts, isortBy, rej]
+    · have : (sortInts vs).length ≠ 0 := by
+        rw [hlen]; intro h; exact hne (List.length_eq_zero_iff.mp h)
+      simp [this, hne, rej, pure, Except.pure]
+  · simp [hnd, Except.map, FH.checkFh, bind, Except.bind, rej]
+
+/-- an outcome is a rejection that leaves no fitted state -/
+def Rejected (o : Outcome) : Prop := o.ok = false ∧ o.fitted ≠ some true
+instance (o : Outcome) : Decidable (Rejected o) := by unfold Rejected; infer_instance
+
+theorem finish_rej (hasEst : Bool) : Rejected (finish rej hasEst) := by
+  cases hasEst <;> simp [Rejected, finish, rej]
+
+theorem finish_of_error (r : R Unit) (hasEst : Bool) (h : r = rej) : Rejected (finish r hasEst) := by
+  subst h; exact finish_rej hasEst
+
+/-- bind in the rejection monad: if the first step rejects, so does the whole -/
+theorem bind_rej {α β} (f : α → R β) : ((rej : R α) >>= f) = rej := rfl
+
+/-- every entry point that takes a target series rejects a malformed one, whatever the other
+arguments are, and ends unfitted -/
+theorem entry_rejects_malformed_y (y : YDesc) (hy : YMalformed y.kind false) :
+    (∀ x fh st sp wl, Rejected (naiveFit y x fh st sp wl)) ∧
+    (∀ x cv sc so, Rejected (evaluateEntry y x cv sc so)) ∧
+    (∀ x fh st wl sok, Rejected (reduceEntry y x fh st wl sok)) ∧
+    (∀ k sh fh a p, Rejected (compositeEntry k sh y fh a p)) := by
+  have hY : checkY y.kind false = rej := (checkY_rejects_iff _ _).mpr hy
+  have hYX : ∀ x, checkYX y.kind x false = rej := by
+    intro x; exact (checkEqualIndex_rejects_iff _ _ _).mpr (Or.inl hy)
+  refine ⟨?_, ?_, ?_, ?_⟩
+  · intro x fh st sp wl
+    apply finish_of_error
+    simp only [hYX x, bind_rej]
+  · intro x cv sc so
+    unfold evaluateEntry
+    apply finish_of_error
+    cases so <;> cases cv <;> cases sc <;> simp [hYX x, rej, bind, Except.bind, pure, Except.pure]
+  · intro x fh st wl sok
+    unfold reduceEntry
+    apply finish_of_error
+    cases st <;> cases sok <;> simp [hYX x, rej, bind, Except.bind, pure, Except.pure]
+  · intro k sh fh a p
+    unfold compositeEntry
+    have h1 : checkYX y.kind .none false = rej := hYX .none
+    by_cases hsh : sh = .ok
+    · subst hsh
+      cases k <;> simp [hY, h1, rej, bind, Except.bind, pure, Except.pure, Rejected]
+    · cases k <;> simp [hsh, rej, bind, Except.bind, pure, Except.pure, Rejected]
+
+/-- … and exogenous data whose index differs from the target's (or array-typed X) -/
+theorem entry_rejects_misaligned_X (y : YDesc) (x : XKind) (hx : XMalformed x) :
+    (∀ fh st sp wl, Rejected (naiveFit y x fh st sp wl)) ∧
+    (∀ cv sc so, Rejected (evaluateEntry y x cv sc so)) ∧
+    (∀ fh st wl sok, Rejected (reduceEntry y x fh st wl sok)) ∧
+    (naiveUpdate y.kind x).ok = false := by
+  have hYX : ∀ a, checkYX y.kind x a = rej := by
+    intro a; exact (checkEqualIndex_rejects_iff _ _ _).mpr (Or.inr hx)
+  refine ⟨?_, ?_, ?_, ?_⟩
+  · intro fh st sp wl
+    apply finish_of_error
+    simp only [hYX false, bind_rej]
+  · intro cv sc so
+    unfold evaluateEntry
+    apply finish_of_error
+    cases so <;> cases cv <;> cases sc <;> simp [hYX false, rej, bind, Except.bind, pure, Except.pure]
+  · intro fh st wl sok
+    unfold reduceEntry
+    apply finish_of_error
+    cases st <;> cases sok <;> simp [hYX false, rej, bind, Except.bind, pure, Except.pure]
+  · simp [naiveUpdate, hYX true, rej, Except.isOk, Except.toBool]
+
+/-- a malformed horizon token -/
+def FhMalformed (t : FhTok) : Prop := t = .dup ∨ t = .empty ∨ t = .frac ∨ t = .str ∨ t = .float
+instance (t : FhTok) : Decidable (FhMalformed t) := by unfold FhMalformed; infer_instance
+
+theorem checkFh_malformed (t : FhTok) (h : FhMalformed t) (enf : Bool) : checkFh t enf = rej := by
+  rcases h with rfl | rfl | rfl | rfl | rfl <;> cases enf <;> decide
+
+/-- a duplicate, empty, fractional or wrongly typed horizon is rejected by every entry point that
+takes a horizon -/
+theorem entry_rejects_bad_horizon (t : FhTok) (h : FhMalformed t) :
+    (∀ y x st sp wl, Rejected (naiveFit y x t st sp wl)) ∧
+    (∀ fitFh, (naivePredict fitFh t).ok = false) ∧
+    (∀ k y wl step iw sww cut, Rejected (splitEntry k y t wl step iw sww cut)) ∧
+    (∀ y x st wl sok, Rejected (reduceEntry y x t st wl sok)) ∧
+    (∀ k sh y a p, Rejected (compositeEntry k sh y t a p)) ∧
+    Rejected (requiredFit t) ∧
+    (∀ enf, Rejected (fhEntry false t true true enf)) := by
+  have hc : ∀ enf, checkFh t enf = rej := checkFh_malformed t h
+  have hne : t ≠ .none := by rcases h with rfl | rfl | rfl | rfl | rfl <;> decide
+  refine ⟨?_, ?_, ?_, ?_, ?_, ?_, ?_⟩
+  · intro y x st sp wl
+    unfold naiveFit
+    apply finish_of_error
+    cases hyx : checkYX y.kind x false with
+    | error e => rfl
+    | ok u =>
+      rcases h with rfl | rfl | rfl | rfl | rfl <;>
+        simp [hc false, rej, bind, Except.bind, pure, Except.pure]
+  · intro fitFh
+    rcases h with rfl | rfl | rfl | rfl | rfl <;>
+      simp [naivePredict, hc false, rej, bind, Except.bind, Except.isOk, Except.toBool]
+  · intro k y wl step iw sww cut
+    unfold splitEntry
+    apply finish_of_error
+    have hsf : splitFhVals t = rej := by simp [splitFhVals, hc true, rej, bind, Except.bind]
+    cases checkTimeIndex y.kind false with
+    | error e => rfl
+    | ok u =>
+      cases k with
+      | sliding | expanding =>
+        simp only [bind, Except.bind]
+        cases checkPosInt step with
+        | error e => rfl
+        | ok s =>
+          cases checkPosInt wl with
+          | error e => rfl
+          | ok w =>
+            cases checkPosInt iw with
+            | error e => rfl
+            | ok i => simp [hsf, rej]
+      | single =>
+        simp only [bind, Except.bind]
+        cases checkPosInt wl with
+        | error e => rfl
+        | ok w => simp [hsf, rej]
+      | cutoff =>
+        cases cut <;> simp [hsf, rej, bind, Except.bind]
+  · intro y x st wl sok
+    unfold reduceEntry
+    apply finish_of_error
+    cases hyx : checkYX y.kind x false with
+    | error e => cases st <;> cases sok <;> simp [rej, bind, Except.bind, pure, Except.pure]
+    | ok u =>
+      rcases h with rfl | rfl | rfl | rfl | rfl <;> cases st <;> cases sok <;> cases x <;>
+        simp [hc false, rej, bind, Except.bind, pure, Except.pure]
+  · intro k sh y a p
+    unfold compositeEntry
+    by_cases hsh : sh = .ok
+    · subst hsh
+      cases hy1 : checkY y.kind false with
+      | error e =>
+        cases hy2 : checkYX y.kind .none false with
+        | error e2 => cases k <;> simp [hy1, hy2, rej, bind, Except.bind, pure, Except.pure, Rejected]
+        | ok u2 =>
+          rcases h with rfl | rfl | rfl | rfl | rfl <;> cases k <;>
+            simp [hy1, hy2, hc false, rej, bind, Except.bind, pure, Except.pure, Rejected]
+      | ok u =>
+        cases hy2 : checkYX y.kind .none false with
+        | error e2 =>
+          rcases h with rfl | rfl | rfl | rfl | rfl <;> cases k <;>
+            simp [hy1, hy2, hc false, rej, bind, Except.bind, pure, Except.pure, Rejected]
+        | ok u2 =>
+          rcases h with rfl | rfl | rfl | rfl | rfl <;> cases k <;>
+            simp [hy1, hy2, hc false, rej, bind, Except.bind, pure, Except.pure, Rejected]
+    · cases k <;> simp [hsh, rej, bind, Except.bind, pure, Except.pure, Rejected]
+  · apply finish_of_error
+    rcases h with rfl | rfl | rfl | rfl | rfl <;> simp [hc false, rej, bind, Except.bind]
+  · intro enf
+    apply finish_of_error
+    simp [hc enf, rej, bind, Except.bind]
+
+/-- a missing horizon is rejected where one is needed -/
+theorem entry_rejects_missing_horizon :
+    (naivePredict .none .none).ok = false ∧ Rejected (requiredFit .none) ∧
+    (∀ sh y a p, Rejected (compositeEntry .stacking sh y .none a p)) ∧
+    (∀ y x st wl sok, st ≠ .recursive → Rejected (reduceEntry y x .none st wl sok)) := by
+  refine ⟨by decide, by decide, ?_, ?_⟩
+  · intro sh y a p
+    unfold compositeEntry
+    by_cases hsh : sh = .ok
+    · subst hsh
+      cases hy2 : checkYX y.kind .none false <;>
+        simp [hy2, rej, bind, Except.bind, pure, Except.pure, Rejected]
+    · simp [hsh, rej, bind, Except.bind, pure, Except.pure, Rejected]
+  · intro y x st wl sok hst
+    unfold reduceEntry
+    apply finish_of_error
+    cases hyx : checkYX y.kind x false <;> cases st <;> cases sok <;> cases x <;>
+      simp_all [rej, bind, Except.bind, pure, Except.pure]
+
+/-- a horizon-dependent forecaster rejects at predict time any valid horizon that differs - in its
+steps or in being relative / absolute - from the one it was fitted with (repaired code) -/
+theorem required_rejects_different_horizon (fitFh fh : FhTok) (f g : FH.FH)
+    (hf : checkFh fh false = .ok f) (hg : checkFh fitFh false = .ok g) (hfh : fh ≠ .none)
+    (hdiff : f.vals ≠ g.vals ∨ f.rel ≠ g.rel) :
+    (requiredPredict fitFh fh).ok = false := by
+  unfold requiredPredict
+  cases fh with
+  | none => exact absurd rfl hfh
+  | _ =>
+    simp only [hf, hg, bind, Except.bind]
+    rcases hdiff with h | h
+    · have : (f.vals == g.vals) = false := by simpa using h
+      simp [this, rej, Except.isOk, Except.toBool]
+    · have : (f.rel == g.rel) = false := by simpa using h
+      simp [this, rej, Except.isOk, Except.toBool]
+
+/-- a setting that is not a positive integer -/
+def BadInt (x : IntLike) : Prop := checkPosInt x = rej
+instance (x : IntLike) : Decidable (BadInt x) := by unfold BadInt; infer_instance
+
+/-- a non-positive or non-integer window, step or seasonal period is rejected wherever it is used -/
+theorem entry_rejects_bad_window_step_sp (x : IntLike) (hx : BadInt x) :
+    (∀ y fh step iw sww cut k, k ≠ .cutoff ∨ cut = .ok → Rejected (splitEntry k y fh x step iw sww cut)) ∧
+    (∀ y fh wl iw sww cut, Rejected (splitEntry .sliding y fh wl x iw sww cut)) ∧
+    (∀ y fh wl iw sww cut, Rejected (splitEntry .expanding y fh wl x iw sww cut)) ∧
+    (∀ y fh wl step sww cut, Rejected (splitEntry .sliding y fh wl step x sww cut)) ∧
+    (∀ sp n, naiveWindow .drift sp x n = rej) ∧
+    (∀ n, naiveWindow .mean (.int 1) x n = rej) ∧
+    (∀ wl n, spIsOne x = false → naiveWindow .last x wl n = rej) ∧
+    (∀ y xx fh st sok, Rejected (reduceEntry y xx fh st x sok)) := by
+  unfold BadInt at hx
+  refine ⟨?_, ?_, ?_, ?_, ?_, ?_, ?_, ?_⟩
+  · intro y fh step iw sww cut k hk
+    unfold splitEntry
+    apply finish_of_error
+    cases checkTimeIndex y.kind false with
+    | error e => rfl
+    | ok u =>
+      cases k with
+      | sliding | expanding =>
+        simp only [bind, Except.bind]
+        cases checkPosInt step with
+        | error e => rfl
+        | ok s => simp [hx, rej]
+      | single => simp [hx, rej, bind, Except.bind]
+      | cutoff =>
+        rcases hk with h | h
+        · exact absurd rfl h
+        · subst h
+          simp only [bind, Except.bind]
+          cases splitFhVals fh with
+          | error e => rfl
+          | ok v => simp [hx, rej]
+  · intro y fh wl iw sww cut
+    unfold splitEntry
+    apply finish_of_error
+    cases checkTimeIndex y.kind false with
+    | error e => rfl
+    | ok u => simp [hx, rej, bind, Except.bind]
+  · intro y fh wl iw sww cut
+    unfold splitEntry
+    apply finish_of_error
+    cases checkTimeIndex y.kind false with
+    | error e => rfl
+    | ok u => simp [hx, rej, bind, Except.bind]
+  · intro y fh wl step sww cut
+    unfold splitEntry
+    apply finish_of_error
+    cases checkTimeIndex y.kind false with
+    | error e => rfl
+    | ok u =>
+      simp only [bind, Except.bind]
+      cases checkPosInt step with
+      | error e => rfl
+      | ok s =>
+        cases checkPosInt wl with
+        | error e => rfl
+        | ok w => simp [hx, rej]
+  · intro sp n
+    simp [naiveWindow, hx, rej, bind, Except.bind]
+  · intro n
+    cases x <;> simp_all [naiveWindow, spIsOne, rej, bind, Except.bind, pure, Except.pure, checkPosInt]
+  · intro wl n hone
+    simp [naiveWindow, hone, hx, rej, bind, Except.bind]
+  · intro y xx fh st sok
+    unfold reduceEntry
+    apply finish_of_error
+    cases hyx : checkYX y.kind xx false with
+    | error e => cases st <;> cases sok <;> simp [rej, bind, Except.bind, pure, Except.pure]
+    | ok u =>
+      cases st <;> cases sok <;> cases xx <;> cases fh <;>
+        simp [hx, rej, bind, Except.bind, pure, Except.pure] <;>
+        (split <;> simp [hx, rej, bind, Except.bind, pure, Except.pure])
+
+/-- a window that does not fit the series is rejected -/
+theorem entry_rejects_window_not_fitting :
+    (∀ st sp (w : Int) (n : Nat), (n : Int) < w → st ≠ .last → spIsOne sp = true →
+        naiveWindow st sp (.int w) n = rej) ∧
+    (∀ (n w : Int) (fh : List Int), fh.Pairwise (· < ·) → fh ≠ [] → w + Split.fhMax fh > n →
+        Split.singleSplit n fh (some w) = .error .value) ∧
+    (∀ k (n w s : Int) (fh : List Int) iw sww, fh.Pairwise (· < ·) → fh ≠ [] → w + Split.fhMax fh > n →
+        Split.windowSplit k n fh w s iw sww = .error .value) := by
+  refine ⟨?_, ?_, ?_⟩
+  · intro st sp w n hlt hst hone
+    cases st with
+    | last => exact absurd rfl hst
+    | unknown => simp [naiveWindow, rej, bind, Except.bind]
+    | mean =>
+      have hsp : sp = .int 1 ∨ sp = .bool := by
+        cases sp with
+        | int v =>
+          by_cases hv : v = 1
+          · left; rw [hv]
+          · exfalso
+            have : spIsOne (.int v) = false := by
+              unfold spIsOne; split <;> simp_all
+            rw [this] at hone; exact absurd hone (by decide)
+        | bool => right; rfl
+        | float => exact absurd hone (by decide)
+        | str => exact absurd hone (by decide)
+        | none => exact absurd hone (by decide)
+      rcases hsp with rfl | rfl
+      · by_cases hw : w < 1
+        · simp [naiveWindow, spIsOne, checkPosInt, hw, rej, bind, Except.bind, pure, Except.pure]
+        · have : w > (n : Int) := by omega
+          simp [naiveWindow, spIsOne, checkPosInt, hw, this, rej, bind, Except.bind, pure, Except.pure]
+      · by_cases hw : w < 1
+        · simp [naiveWindow, spIsOne, checkPosInt, hw, rej, bind, Except.bind, pure, Except.pure]
+        · simp [naiveWindow, spIsOne, checkPosInt, hw, rej, bind, Except.bind, pure, Except.pure]
+    | drift =>
+      by_cases hw : w < 1
+      · simp [naiveWindow, checkPosInt, hw, rej, bind, Except.bind, pure, Except.pure]
+      · by_cases h1 : w = 1
+        · simp [naiveWindow, checkPosInt, hw, h1, rej, bind, Except.bind, pure, Except.pure]
+        · simp [naiveWindow, checkPosInt, hw, h1, rej, bind, Except.bind, pure, Except.pure]
+          omega
+  · intro n w fh hs hne hbad
+    unfold Split.singleSplit Split.singleSplitRaw
+    by_cases hw : w < 1
+    · simp [hw, bind, Except.bind, throw, throwThe, MonadExceptOf.throw, Except.map]
+    · simp [hw, hbad, bind, Except.bind, pure, Except.pure, throw, throwThe, MonadExceptOf.throw, Except.map,
+        Lem.checkFh_sorted fh hs hne]
+  · intro k n w s fh iw sww hs hne hbad
+    unfold Split.windowSplit Split.windowSplitRaw Split.validate
+    simp only [bind, Except.bind, pure, Except.pure, throw, throwThe, MonadExceptOf.throw,
+      Lem.checkFh_sorted fh hs hne]
+    by_cases h1 : s < 1
+    · simp [h1, Except.map]
+    · by_cases h2 : w < 1
+      · simp [h1, h2, Except.map]
+      · cases iw with
+        | none => simp [h1, h2, hbad, Except.map]
+        | some i =>
+          by_cases h4 : i < 1
+          · simp [h1, h2, h4, Except.map]
+          · simp [h1, h2, hbad, h4, Except.map]
+
+/-- unknown strategy names are rejected -/
+theorem entry_rejects_unknown_strategy :
+    (∀ y x fh sp wl, Rejected (naiveFit y x fh .unknown sp wl)) ∧
+    (∀ y x fh wl sok, Rejected (reduceEntry y x fh .unknown wl sok)) ∧
+    (∀ y x fh st wl, Rejected (reduceEntry y x fh st wl false)) ∧
+    (∀ y x cv sc, Rejected (evaluateEntry y x cv sc false)) := by
+  refine ⟨?_, ?_, ?_, ?_⟩
+  · intro y x fh sp wl
+    unfold naiveFit
+    apply finish_of_error
+    cases checkYX y.kind x false with
+    | error e => rfl
+    | ok u =>
+      cases fh <;> simp [naiveWindow, rej, bind, Except.bind, pure, Except.pure] <;>
+        (split <;> simp [rej])
+  · intro y x fh wl sok
+    apply finish_of_error; simp [rej, bind, Except.bind]
+  · intro y x fh st wl
+    apply finish_of_error
+    cases st <;> simp [rej, bind, Except.bind, pure, Except.pure]
+  · intro y x cv sc
+    apply finish_of_error; simp [rej, bind, Except.bind]
+
+/-- every ill-formed composite (duplicate or reserved names, `__` in a name, no list, empty list,
+non-forecaster members, all members dropped, wrong step types, unknown selection) is rejected at
+fit, for every composite kind, series and horizon -/
+theorem entry_rejects_ill_formed_composite (k : CompKind) (sh : Shape) (hsh : sh ≠ .ok)
+    (y : YDesc) (fh : FhTok) (a p : Bool) : Rejected (compositeEntry k sh y fh a p) := by
+  unfold compositeEntry
+  cases k <;> simp [hsh, rej, bind, Except.bind, pure, Except.pure, Rejected]
+
+/-- whenever a fit-type entry point rejects, no fitted state results -/
+theorem rejection_leaves_unfitted (r : R Unit) (h : (finish r true).ok = false) :
+    (finish r true).fitted = some false := by
+  cases r with
+  | error e => rfl
+  | ok u => simp [finish] at h
+
+/-- valid inputs are accepted (near-miss side of every fault): a sorted non-empty univariate
+series, aligned or absent exogenous data, a valid or absent horizon, settings that fit -/
+theorem valid_context_accepted (n : Nat) (hn : 2 ≤ n) (x : XKind) (hx : x = .none ∨ x = .ok)
+    (vs : List Int) (hvs : vs.Nodup) (hne : vs ≠ []) :
+    naiveFit ⟨.ok, n⟩ x (.rel vs) .last (.int 1) .none = ⟨true, some true⟩ ∧
+    naiveFit ⟨.ok, n⟩ x .none .mean (.int 1) .none = ⟨true, some true⟩ ∧
+    naiveFit ⟨.ok, n⟩ x .none .drift (.int 1) .none = ⟨true, some true⟩ ∧
+    naivePredict .none (.rel vs) = ⟨true, some true⟩ ∧
+    evaluateEntry ⟨.ok, n⟩ x .ok .none true = ⟨true, none⟩ ∧
+    compositeEntry .ensemble .ok ⟨.ok, n⟩ (.rel vs) true false = ⟨true, some true⟩ := by
+  have hfh : ∀ enf, ∃ f, checkFh (.rel vs) enf = .ok f := by
+    intro enf
+    have h := ((checkFh_rejects_iff vs enf).1).not.mpr (by simp [hvs, hne])
+    cases hc : checkFh (.rel vs) enf with
+    | ok f => exact ⟨f, rfl⟩
+    | error e => exact absurd (by rw [hc]; rfl) h
+  obtain ⟨f, hf⟩ := hfh false
+  have h1 : ¬ (1 : Int) > n := by omega
+  have h2 : ¬ ((n : Int) > n) := by omega
+  have h3 : ¬ ((n : Int) = 1) := by omega
+  rcases hx with rfl | rfl <;>
+    simp [naiveFit, naivePredict, evaluateEntry, compositeEntry, checkYX, checkY, checkSeries, checkTimeIndex,
+      checkXAgainst, hf, naiveWindow, spIsOne, checkPosInt, finish, h1, h2, h3, bind, Except.bind, pure,
+      Except.pure, Except.isOk, Except.toBool, rej]
+
+-- non-vacuity
+example : YMalformed .unsorted false := by decide
+example : FhMalformed .dup := by decide
+example : BadInt (.int 0) ∧ BadInt .float ∧ BadInt .bool ∧ BadInt .str := by decide
+example : checkFh (.rel [1, 2]) false = .ok ⟨[1, 2], true⟩ := by decide
+
 end SkVerif.C20
